@@ -324,7 +324,18 @@ func c20Round2(c *Ctx, feds []*GenPkg) {
 			}
 			n := 0
 			var bad ssa.Instruction
-			for _, e := range an.CondEdges(fn) {
+			// the function and the per-entity helpers of the package it hands the representation to
+			bodies := []*ssa.Function{fn}
+			for _, call := range an.CallsIn(fn, func(_ ssa.CallInstruction, ci an.CalleeInfo) bool {
+				return ci.Static != nil && ci.Static.Pkg == g.SSA && strings.HasPrefix(ci.Static.Name(), name) && ci.Static != fn
+			}) {
+				bodies = append(bodies, call.Common().StaticCallee())
+			}
+			var edges []an.CondEdge
+			for _, body := range bodies {
+				edges = append(edges, an.CondEdges(body)...)
+			}
+			for _, e := range edges {
 				empty, ok := an.EmptinessFact(e.Fact, func(v ssa.Value) bool { return an.IsErrorType(v.Type()) })
 				if !ok || empty {
 					continue
